@@ -25,11 +25,22 @@ def is_nontrivial(rnodes):
     return any(r[0] in ("comp", "range", "plural") for r in rnodes)
 
 
+_PROP = ["C01"]
+
+
 def signature_for(kind, rnodes=None, detail=""):
-    return "C01/%s%s" % (kind, ("/" + detail) if detail else "")
+    return "%s/%s%s" % (_PROP[0], kind, ("/" + detail) if detail else "")
 
 
-def check_project(res, project, out, ptable, rng, stage="P", fmt="json"):
+def check_project(res, project, out, ptable, rng, stage="P", fmt="json", prop="C01", resolver=None, only_paths=None, classify=None):
+    _PROP[0] = prop
+    try:
+        return _check_project(res, project, out, ptable, rng, stage, fmt, resolver, only_paths, classify)
+    finally:
+        _PROP[0] = "C01"
+
+
+def _check_project(res, project, out, ptable, rng, stage, fmt, resolver, only_paths, classify):
     """Compares every key of every locale. Returns number of comparisons."""
     cfg = project["cfg"]
     locales = gen.effective_locales(cfg)
@@ -42,10 +53,12 @@ def check_project(res, project, out, ptable, rng, stage="P", fmt="json"):
         return
     bk = out["bk"]
     tops = dict(pvdump.top_locales(bk))
-    resolver = model.Resolver(project, ptable)
+    resolver = resolver or model.Resolver(project, ptable)
     for ns in (cfg.get("namespaces") or [None]):
         dtree = project["data"][(ns, default)]
         for path, _node in model.leaf_paths(dtree):
+            if only_paths is not None and (ns, tuple(path)) not in only_paths:
+                continue
             for loc in locales:
                 try:
                     eff = model.effective_locale(project, ns, loc, path)
@@ -82,8 +95,9 @@ def check_project(res, project, out, ptable, rng, stage="P", fmt="json"):
                         res.nontriv([rnodes, loc == default, eff == loc])
                     res.count("kind:" + "+".join(sorted({r[0] for r in rnodes})) if len(rnodes) < 4 else "kind:long")
                     if observed != expected:
+                        extra = classify(project, ns, loc, path, args, cvals, observed, ptable) if classify else ""
                         res.violation(
-                            signature_for("text-mismatch"),
+                            signature_for("text-mismatch", detail=extra),
                             "ns=%r locale=%s (effective %s, dump says %s) key=%s args=%r counts=%r\n  expected %r\n  observed %r" % (
                                 ns, loc, eff, src, ".".join(path), args, cvals, expected, observed),
                             {"project": gen.project_to_jsonable(project), "ns": ns, "locale": loc, "path": path,
